@@ -474,7 +474,8 @@ def run_route(cases, acc, tier):
         for seg in segs:
             r = route_one(setup, queue, plan, evs, seg, base)
             key = (evs, queue, plan, seg)
-            oc = tuple(sorted(set(v[0] for v in r['viol']))) or ('ok',)
+            oc = tuple(sorted(set(v[0] for v in r['viol']))) or ('delivered=%s' % ','.join(str(len(g)) for _, g in r['obs'][1]),
+                                                                  'cmds=%s' % ','.join(o[1][0] for o in r['cmd_obs']))
             acc.execution(key=key, outcome='/'.join(oc), nontrivial=bool(queue) or len(evs) > 1, steps=r['steps'] + 2)
             acc.state(h64(r['obs']))
             if acc.want_recheck(0.01):
@@ -496,7 +497,7 @@ def run_listen(combos, acc):
                     for seg in (('sep',), ('glue',)):
                         r = run_session(setup, queue, plan, evs, seg)
                         key = (setup, fk, nev, queue, seg)
-                        oc = tuple(sorted(set(v[0] for v in r['viol']))) or ('ok',)
+                        oc = tuple(sorted(set(v[0] for v in r['viol']))) or ('delivered=%s' % ','.join(str(len(g)) for _, g in r['obs'][1]),)
                         acc.execution(key=key, outcome='/'.join(oc), nontrivial=len(combo) >= 2, steps=r['steps'] + len(setup))
                         acc.state(h64(r['obs']))
                         violations_to_acc(acc, r, dict(family='listen', setup=setup, queue=queue, plan=plan,
@@ -519,7 +520,8 @@ def run_subs(first, depth, acc):
             for delayed in (False, True):
                 if delayed:
                     r = run_subs_one(ops, True)
-                oc = tuple(sorted(set(v[0] for v in r['viol']))) or ('ok',)
+                oc = tuple(sorted(set(v[0] for v in r['viol']))) or ('setevents=%d' % sum(1 for a in r['obs'][1] if a.startswith('SETEVENTS')),
+                                                                      'delivered=%s' % ','.join(str(len(g)) for _, g in r['obs'][0]))
                 acc.execution(key=(ops, delayed), outcome='/'.join(oc), nontrivial=len(ops) >= 2, steps=r['steps'] + len(ops))
                 acc.state(h64(r['obs']))
                 last = (ops, r)
